@@ -32,7 +32,12 @@ Plain(n) == {Pat(k, ic, a) : k \in PlainKinds, ic \in BOOLEAN, a \in Words(n)}
 ReAtoms == { <<RxC(97)>>, <<RxC(97), [t |-> "dot"]>>, <<[t |-> "bol"], RxC(97)>>, <<RxC(98), [t |-> "eol"]>>,
              <<RxC(97), [t |-> "star"], RxC(98)>>, <<[t |-> "star"], RxC(97)>>, <<RxC(97), [t |-> "star"]>>,
              <<[t |-> "lazy"], RxC(98)>>, <<[t |-> "dot"], [t |-> "dot"]>>, <<[t |-> "bol"], [t |-> "eol"]>>,
-             <<[t |-> "star"], RxC(65), [t |-> "star"]>> }
+             <<[t |-> "star"], RxC(65), [t |-> "star"]>>,
+             \* classes, bracket sets and repetition
+             <<[t |-> "c", c |-> 97, rep |-> "+"], RxC(98)>>, <<[t |-> "bol"], [t |-> "c", c |-> 97, rep |-> "?"], RxC(98), [t |-> "eol"]>>,
+             <<[t |-> "set", cs |-> <<97, 98>>, neg |-> FALSE], [t |-> "eol"]>>, <<[t |-> "bol"], [t |-> "set", cs |-> <<97>>, neg |-> TRUE, rep |-> "+"], [t |-> "eol"]>>,
+             <<[t |-> "cls", n |-> "W"]>>, <<[t |-> "bol"], [t |-> "cls", n |-> "w", rep |-> "*"], [t |-> "eol"]>>,
+             <<[t |-> "cls", n |-> "D", rep |-> "+"], RxC(65)>> }
 Regexes == {Rx(r, ic) : r \in ReAtoms, ic \in BOOLEAN}
 Singles == Plain(MaxNeedle) \cup {Pat("any", ic, <<>>) : ic \in BOOLEAN} \cup Regexes
 PairSet == IF PairNeedle < 0 THEN {} ELSE Plain(PairNeedle) \cup Regexes
